@@ -1206,10 +1206,10 @@ bool ReaderMgr::popReader()
         if (fReaderStack->empty())
             return false;
 
-        // Else pop again and try it one more time
-        delete fCurReaderData;
-        fCurReaderData = fReaderStack->pop();
-        fCurReader = fCurReaderData->getReader();
+        //  Else pop again and try it one more time. This has to go through
+        //  the checks above again, since the exhausted reader may be one
+        //  that is marked to throw at its end.
+        return popReader();
     }
     return true;
 }
